@@ -145,10 +145,13 @@ func (eval Evaluator) Relinearize(ctIn *Ciphertext, opOut *Ciphertext) (err erro
 	ctTmp.MetaData = ctIn.MetaData
 
 	eval.GadgetProduct(level, ctIn.Value[2], &rlk.GadgetCiphertext, ctTmp)
+
+	// Once the third component has been consumed (the receiver may be the input): the receiver
+	// may have had any degree.
+	opOut.Resize(1, level)
+
 	ringQ.Add(ctIn.Value[0], ctTmp.Value[0], opOut.Value[0])
 	ringQ.Add(ctIn.Value[1], ctTmp.Value[1], opOut.Value[1])
-
-	opOut.Resize(1, level)
 
 	*opOut.MetaData = *ctIn.MetaData
 
